@@ -382,7 +382,7 @@ func fieldKey(v ssa.Value) string {
 	if n == nil {
 		return "struct." + f
 	}
-	return shortPkg(n.Obj().Pkg().Path()) + "." + n.Obj().Name() + "." + f
+	return canonField(shortPkg(n.Obj().Pkg().Path()) + "." + n.Obj().Name() + "." + f)
 }
 
 // instrIndex returns the index of ins within its block.
